@@ -14,6 +14,8 @@ import (
 	"os"
 	"strconv"
 	"strings"
+	"unicode"
+	"unicode/utf8"
 
 	"github.com/corazawaf/coraza/v3/experimental/plugins/plugintypes"
 	"github.com/corazawaf/coraza/v3/internal/corazawaf"
@@ -33,8 +35,10 @@ type tdesc struct {
 var tds = []tdesc{
 	{"none", "TNone", "a%+\x00\xff", false},
 	{"length", "TLength", "a\x00", false},
-	{"lowercase", "TLowercase", "aAzZ@[`{ 0", true},
-	{"uppercase", "TUppercase", "aAzZ@[`{ 0", true},
+	// lowercase / uppercase: the Unicode case-map model (CaseMap.v) over the regenerated tables; the alphabet holds
+	// the bytes of \u00c9 \u00e9 \u03a3 \u03c3 \u0130 \u212a \u01c5 \u24b6 \U00010400 plus invalid bytes
+	{"lowercase", "TLowercase", "aAzZ@[`{ 0\xc3\x89\xa9\xce\xa3\xcf\x83\xc4\xb0\xe2\x84\xaa\xc7\x85\x92\xb6\xf0\x90\x80\xff", false},
+	{"uppercase", "TUppercase", "aAzZ@[`{ 0\xc3\x89\xa9\xce\xa3\xcf\x83\xc4\xb1\xc5\xbf\xc7\x85\xe2\x93\x90\xf0\x90\x90\xa8\xff", false},
 	{"removeNulls", "TRemoveNulls", "a\x00 \xff", false},
 	{"replaceNulls", "TReplaceNulls", "a\x00 \xff", false},
 	{"trim", "TTrim", " \t\n\r\f\va\x00\xa0\x85", false},
@@ -369,6 +373,23 @@ func Run(cfg vh.Config) (*vh.Result, error) {
 					}
 				}
 			}
+			// runs of one escape sequence (in-place decoders whose output grows or shrinks per escape), complete and
+			// with every truncation of a further copy at the end
+			for _, tmpl := range escapeTemplates {
+				if !cfg.Thorough() && !strings.ContainsRune(td.Alphabet, rune(tmpl[0])) && tmpl[0] < 0x80 {
+					continue
+				}
+				for _, k := range []int{2, 3, 4, 5, 8, 17} {
+					rep := strings.Repeat(tmpl, k)
+					addSingle(td, rep)
+					if k == 4 || cfg.Thorough() {
+						for cut := 1; cut < len(tmpl); cut++ {
+							addSingle(td, rep+tmpl[:cut])
+						}
+						addSingle(td, "a"+rep+"z")
+					}
+				}
+			}
 			// %uXXXX escapes (best-fit table, full-width folding, truncations) for urlDecodeUni
 			if td.Go == "urlDecodeUni" {
 				hexd := "0123456789abcdefABCDEF"
@@ -411,6 +432,60 @@ func Run(cfg vh.Config) (*vh.Result, error) {
 				addSingle(td, sb.String()[:n])
 			}
 		}
+		// lowercase / uppercase beyond ASCII: EVERY code point that Go's unicode package maps (packed 8 per case,
+		// so the regenerated range tables are compared with the code on their whole support), the neighbours of
+		// every mapped range, surrogates and the last code points, and random rune strings with invalid bytes mixed in
+		{
+			lc, uc := byName["lowercase"], byName["uppercase"]
+			var pack []rune
+			flush := func() {
+				if len(pack) > 0 {
+					addSingle(lc, string(pack))
+					addSingle(uc, string(pack))
+					pack = pack[:0]
+				}
+			}
+			prevMapped := false
+			for r := rune(0x80); r <= unicode.MaxRune; r++ {
+				mapped := unicode.ToLower(r) != r || unicode.ToUpper(r) != r
+				if mapped || prevMapped || (r < unicode.MaxRune && (unicode.ToLower(r+1) != r+1 || unicode.ToUpper(r+1) != r+1)) {
+					if r < 0xd800 || r > 0xdfff {
+						pack = append(pack, r)
+					}
+				}
+				prevMapped = mapped
+				if len(pack) == 8 {
+					flush()
+				}
+			}
+			flush()
+			for _, s := range []string{"\xed\x9f\xbf", "\xed\xa0\x80", "\xed\xbf\xbf", "\xee\x80\x80", "\xef\xbf\xbd", "\xf4\x8f\xbf\xbf", "\xf4\x90\x80\x80", "\xc0\x80", "\xe0\x9f\xbf", "\xf0\x8f\xbf\xbf"} {
+				addSingle(lc, s)
+				addSingle(uc, "A"+s+"z")
+			}
+			sample := []rune("AaZz \u00c9\u00e9\u00df\u0130\u0131\u017f\u01c4\u01c5\u01c6\u03a3\u03c2\u03c3\u0410\u0430\u1e9e\u212a\u212b\u24b6\u24d0\ua64a\uff21\uff41\U00010400\U00010428\U0001e900\ufffd")
+			for i := 0; i < cfg.Pick(400, 8000); i++ {
+				var sb strings.Builder
+				for k := rng.Intn(10); k >= 0; k-- {
+					switch rng.Intn(8) {
+					case 0:
+						sb.WriteByte(byte(0x80 + rng.Intn(0x80))) // stray continuation / lead byte
+					case 1:
+						sb.WriteRune(rune(rng.Intn(0x2000)))
+					default:
+						sb.WriteRune(sample[rng.Intn(len(sample))])
+					}
+				}
+				str := sb.String()
+				if rng.Intn(5) == 0 && len(str) > 1 {
+					str = str[:len(str)-1] // possibly a truncated encoding at the end of the input
+				}
+				addSingle(lc, str)
+				addSingle(uc, str)
+				oracleEvals++
+				checkLaws(str, fail)
+			}
+		}
 		// transformation lists of length <= 4
 		for i := 0; i < cfg.Pick(1500, 40000); i++ {
 			n := 1 + rng.Intn(4)
@@ -445,7 +520,7 @@ func Run(cfg vh.Config) (*vh.Result, error) {
 		}
 		info, err := vh.WriteShard(cfg.OutDir, vh.Shard{
 			Name: fmt.Sprintf("C14_%d", k), Imports: "From Verif Require Import Base Transform CorrC14.\nFrom VerifGen Require Import FactsC14.",
-			CaseType: "CorrC14.case", MismatchF: "CorrC14.mismatches FactsC14.bestfit", Terms: terms[i:j], Cases: cases[i:j],
+			CaseType: "CorrC14.case", MismatchF: "CorrC14.mismatches FactsC14.bestfit FactsC14.lower_table FactsC14.upper_table", Terms: terms[i:j], Cases: cases[i:j],
 		})
 		if err != nil {
 			return nil, err
@@ -509,6 +584,32 @@ func checkLaws(s string, fail func(key, what string, c any)) {
 	h := sha1.Sum([]byte(s))
 	if apply("sha1", s) != string(h[:]) {
 		fail("c14-law-sha1", "sha1 differs from crypto/sha1", c)
+	}
+	// lowercase / uppercase = the simple case mapping of every code point, bytes that are not UTF-8 left alone
+	// (the standard definition); the rewriting of such bytes to U+FFFD is the listed finding F33
+	for _, w := range []struct {
+		name string
+		f    func(rune) rune
+	}{{"lowercase", unicode.ToLower}, {"uppercase", unicode.ToUpper}} {
+		var sb strings.Builder
+		invalid := false
+		for i := 0; i < len(s); {
+			r, n := utf8.DecodeRuneInString(s[i:])
+			if r == utf8.RuneError && n == 1 {
+				invalid = true
+				sb.WriteByte(s[i])
+			} else {
+				sb.WriteRune(w.f(r))
+			}
+			i += n
+		}
+		if got := apply(w.name, s); got != sb.String() {
+			if invalid {
+				fail("c14-case-map-invalid-utf8", w.name+" rewrites a byte that is not UTF-8 (F33)", c)
+			} else {
+				fail("c14-law-"+w.name, w.name+" differs from the simple case mapping of its code points", c)
+			}
+		}
 	}
 	if isASCII(s) {
 		lo, up := []byte(s), []byte(s)
